@@ -98,13 +98,15 @@ IFACES = ('s_element', 's_element_items', 's_group', 's_window', 'f_array0', 'f_
 
 @st.composite
 def cases(draw, processes_share=0.12):
-    n = draw(st.integers(1, 8))
+    # decisive choices first; the minimal value of every draw is the common / cheap case (threads, no failing task)
     what = draw(st.sampled_from(['iter'] * 6 + ['batch', 'batch', 'store']))
-    use_threads = draw(st.floats(0, 1)) > processes_share
-    return {'what': what, 'iface': draw(st.sampled_from(IFACES)), 'n': n, 'perm': draw(st.permutations(list(range(n)))), 'workers': draw(st.integers(1, 8)),
-            'chunksize': draw(st.integers(1, n + 1)), 'threads': use_threads, 'fail': draw(st.one_of(st.none(), st.none(), st.integers(0, n - 1))),
-            'step_ms': draw(st.sampled_from([2, 3, 4])), 'batch_op': draw(st.sampled_from(['apply', 'sum', 'iloc', 'apply_items'])),
-            'fmt': draw(st.sampled_from(['zip_pickle', 'zip_csv']))}
+    iface = draw(st.sampled_from(IFACES))
+    use_threads = draw(st.floats(0, 1)) < (1 - processes_share)
+    n = draw(st.sampled_from([5, 3, 7, 4, 2, 6, 8, 1]))
+    ch = {'workers': draw(st.sampled_from([3, 2, 1, 4, 7, 8, 5, 6])), 'chunksize': draw(st.sampled_from([c for c in (2, 1, 3, n, n + 1, 4) if c <= n + 1])),
+          'fail': draw(st.one_of(st.none(), st.none(), st.integers(0, n - 1))), 'step_ms': draw(st.sampled_from([2, 3, 4])),
+          'batch_op': draw(st.sampled_from(['apply', 'sum', 'iloc', 'apply_items'])), 'fmt': draw(st.sampled_from(['zip_pickle', 'zip_csv']))}
+    return dict({'what': what, 'iface': iface, 'n': n, 'perm': draw(st.permutations(list(range(n)))), 'threads': use_threads}, **ch)
 
 
 def _set_schedule(case):
@@ -255,6 +257,6 @@ def tag(case, f):
 
 
 SUBS = [
-    Sub('pool', cases(), check, quick=600, thorough=40000, tag=tag, thorough_strategy=cases(processes_share=0.4),
+    Sub('pool', cases(), check, quick=1600, thorough=40000, tag=tag, thorough_strategy=cases(processes_share=0.4),
         rule='apply_pool / Batch(max_workers) / zip store workers == sequential under enforced completion orders'),
 ]
